@@ -67,6 +67,7 @@ Denote(t) ==
       [] t.k = "GramT" -> MMul(MTr(Denote(t.a[1])), Denote(t.a[1]))     \* Product(Transpose(x), x)
       [] t.k = "GramH" -> MMul(MAdj(Denote(t.a[1])), Denote(t.a[1]))    \* Product(Adjoint(x), x)
       [] t.k = "GramHr" -> MMul(Denote(t.a[1]), MAdj(Denote(t.a[1])))   \* Product(x, Adjoint(x))
+      [] t.k = "SelfProd" -> MMul(Denote(t.a[1]), Denote(t.a[1]))       \* Product(x, x): ONE object twice
       [] t.k = "op_sub" -> MSub(Denote(t.a[1]), Denote(t.a[2]))
       [] t.k = "op_neg" -> MNeg(Denote(t.a[1]))
       [] t.k \in {"op_smul", "op_rsmul"} -> MScale(t.p.c, Denote(t.a[1]))      \* c * A, A * c
@@ -119,7 +120,7 @@ WellFormed(t) ==
               \A i \in 1..Len(t.a): ShapeOf(t.a[i])[1] = ShapeOf(t.a[i])[2]
          [] t.k = "Concatenated" ->
               \A i \in 2..Len(t.a): ShapeOf(t.a[i])[2 - t.p.axis] = ShapeOf(t.a[1])[2 - t.p.axis]
-         [] t.k \in {"op_rdiv", "op_inv", "op_pow"} -> ShapeOf(t.a[1])[1] = ShapeOf(t.a[1])[2]
+         [] t.k \in {"op_rdiv", "op_inv", "op_pow", "SelfProd"} -> ShapeOf(t.a[1])[1] = ShapeOf(t.a[1])[2]
          [] OTHER -> TRUE
 
 \* definitional dtype: the promoted dtype of the dense computation
